@@ -60,6 +60,15 @@ MUTANTS = [
     ("EQUIV vertices updated in reverse order", G, "            for v in self._vertices:\n                # Fixed vertices are constants", "            for v in self._vertices[::-1]:\n                # Fixed vertices are constants", []),
     ("EQUIV angle range (-pi, pi]", UT, "return (angle + np.pi) % (TWO_PI) - np.pi", "r = (angle + np.pi) % (TWO_PI) - np.pi\n    return np.pi if r == -np.pi else r", []),
     ("EQUIV hessian converted to CSR before the solve", G, "dx = spsolve(self._hessian, -self._gradient)", "dx = spsolve(self._hessian.tocsr(), -self._gradient)", []),
+    ("EQUIV odometry error as inverse-compose", EO, "err_pose = self.estimate - (self.vertices[1].pose - self.vertices[0].pose)", "err_pose = (self.vertices[1].pose - self.vertices[0].pose).inverse + self.estimate", []),
+    ("EQUIV SE2 compose with cached sin/cos locals", SE2, "            return PoseSE2([self[0] + other[0] * np.cos(self[2]) - other[1] * np.sin(self[2]),\n                            self[1] + other[0] * np.sin(self[2]) + other[1] * np.cos(self[2])],\n                           self[2] + other[2])",
+     "            c_, s_ = float(np.cos(self[2])), float(np.sin(self[2]))\n            rot_ = np.array([[c_, -s_], [s_, c_]]) @ np.array([float(other[0]), float(other[1])])\n            return PoseSE2([self[0] + rot_[0], self[1] + rot_[1]], self[2] + other[2])", []),
+    ("EQUIV SE2 vertex written with 17 significant digits", VX, r'"VERTEX_SE2 {} {} {} {}\n".format(self.id, self.pose[0], self.pose[1], self.pose[2])', r'"VERTEX_SE2 {} {:.17g} {:.17g} {:.17g}\n".format(self.id, self.pose[0], self.pose[1], self.pose[2])', []),
+    ("EQUIV pose equals with hypot-style norm", BP, "return np.linalg.norm(self.to_array() - other.to_array()) / max(np.linalg.norm(self.to_array()), tol) < tol", "return float(np.sqrt(np.sum((self.to_array() - other.to_array()) ** 2))) / max(float(np.sqrt(np.sum(self.to_array() ** 2))), tol) < tol", []),
+    ("EQUIV SE3 boxplus result rescaled to unit norm", SE3, "                                self[6] * qw - self[3] * qx - self[4] * qy - self[5] * qz])\n", "                                self[6] * qw - self[3] * qx - self[4] * qy - self[5] * qz])._vf_rescaled()\n", []),
+    # not behaviour-preserving: a w<0 pose flips its representation under an infinitesimal update, which breaks forward differences of custom error
+    # functions that are functions of the stored quaternion (C16); everything that only depends on the rotation is unaffected
+    ("SE3 boxplus result canonicalised (unit norm, w >= 0)", SE3, "                                self[6] * qw - self[3] * qx - self[4] * qy - self[5] * qz])\n", "                                self[6] * qw - self[3] * qx - self[4] * qy - self[5] * qz])._vf_canonical()\n", ["C16"]),
     ("info-lower-triangle", EO, 'self.estimate[2]) + " ".join([str(x) for x in self.information[np.triu_indices(3, 0)]])', 'self.estimate[2]) + " ".join([str(x) for x in self.information.T[np.triu_indices(3, 0)]])', []),
     ("params-after-edges", G, "            if self._g2o_params:\n                for g2o_param in self._g2o_params.values():\n                    f.write(g2o_param.to_g2o())\n\n            for v in self._vertices:\n                f.write(v.to_g2o())\n",
      "            for v in self._vertices:\n                f.write(v.to_g2o())\n\n            if self._g2o_params:\n                for g2o_param in self._g2o_params.values():\n                    f.write(g2o_param.to_g2o())\n", ["C13"]),
@@ -98,7 +107,10 @@ def main():
                 rows.append((name, "PATTERN NOT FOUND", "", ""))
                 print(rows[-1], flush=True)
                 continue
-            open(p, "w").write(s.replace(old, new))
+            s = s.replace(old, new)
+            if "_vf_rescaled" in new or "_vf_canonical" in new:
+                s = s.replace("    def copy(self):", "    def _vf_rescaled(self):\n        self[3:] = self[3:] / np.linalg.norm(self[3:])\n        return self\n\n    def _vf_canonical(self):\n        self.normalize()\n        return self\n\n    def copy(self):", 1)
+            open(p, "w").write(s)
             r = subprocess.run(["/venv/bin/python", "-c", "import graphslam.graph"], cwd=d, env=dict(os.environ, PYTHONPATH=d), capture_output=True, text=True)
             if r.returncode != 0:
                 rows.append((name, "DOES NOT IMPORT", r.stderr[-200:], ""))
